@@ -1,6 +1,7 @@
 package sx
 
 import (
+	"crypto/sha256"
 	"fmt"
 
 	"gosx/smt"
@@ -86,6 +87,18 @@ func arrayBytes(v Value) []*smt.Term {
 func registerCrypto(e *Engine) {
 	e.AddRule(cipherPkg+".SumSHA256", func(w *W, fn *ssa.Function, a []Value) Value {
 		in := w.sliceBytes(a[0].(SliceV))
+		// package initialisers run concretely (hard-coded addresses are decoded and
+		// checksummed there): use the real hash for their constant inputs
+		if w.initDepth > 0 {
+			if cs, ok := concreteStr(StrV{B: in}); ok {
+				sum := sha256.Sum256([]byte(cs))
+				out := make([]*smt.Term, 32)
+				for i, b := range sum {
+					out[i] = w.C.BVu(uint64(b), 8)
+				}
+				return bytesToArrayV(out)
+			}
+		}
 		return bytesToArrayV(w.hashUF("sha256", in, 32, true))
 	})
 	e.AddRule(cipherPkg+".HashRipemd160", func(w *W, fn *ssa.Function, a []Value) Value {
